@@ -118,7 +118,9 @@ TokStrings(n) == UNION {[1..k -> Tok] : k \in 0..n}
 Schemes == {"http", "https"}
 Auths == {"h", "h:8080", "[::1]", "[fe80::1]:99"}
 Paths == {"", "/", "/a", "/a/"}
-Queries == {<<>>, <<"x=1">>, <<"x=1", "y=2">>, <<"cup2key=5:ab">>}
+\* (existing parameters stay byte for byte: also percent-escapes and every sub-delimiter RFC 3986 allows in a query)
+Queries == {<<>>, <<"x=1">>, <<"x=1", "y=2">>, <<"cup2key=5:ab">>, <<"a=b%20c">>, <<"q=%2Dx", "y=%25z">>,
+            <<"s=a+b,c;d=(e)*!$'", "t=:@/?~_.-">>}
 Url(sc, au, pa, qu) == [scheme |-> sc, auth |-> au, path |-> pa, query |-> qu]
 \* exactly one parameter is appended; nothing else changes (an absent path is the root path)
 Decorate(u, kid, nonce) == [u EXCEPT !.path = IF @ = "" THEN "/" ELSE @, !.query = Append(@, "cup2key=" \o kid \o ":" \o nonce)]
